@@ -17,6 +17,9 @@ type Clause struct {
 	Src   string
 	Expr  ast.Expr
 	Where string // file:line
+	// proof view (ensures #v: ..., invariant @loop k #v: ...): the function is verified once per view, each time with the untagged
+	// clauses plus the clauses of that view, so that unrelated invariants do not burden each other's proofs
+	Group string
 }
 
 type LetDef struct {
@@ -408,7 +411,15 @@ func (cs *ContractSet) loadContractFile(path, pkgSuffix string) {
 				cur.Requires = append(cur.Requires, c)
 				cur.Pre = append(cur.Pre, PreItem{C: c})
 			case "ensures":
-				cur.Ensures = append(cur.Ensures, mkClause(it.rest, it.where))
+				rest, grp := strings.TrimSpace(it.rest), ""
+				if strings.HasPrefix(rest, "#") {
+					if j := strings.Index(rest, ":"); j > 0 {
+						grp, rest = strings.TrimSpace(rest[1:j]), strings.TrimSpace(rest[j+1:])
+					}
+				}
+				c := mkClause(rest, it.where)
+				c.Group = grp
+				cur.Ensures = append(cur.Ensures, c)
 			case "panics_if":
 				cur.PanicsIf = append(cur.PanicsIf, mkClause(it.rest, it.where))
 			case "unfold":
@@ -470,7 +481,11 @@ func (cs *ContractSet) loadContractFile(path, pkgSuffix string) {
 				}
 				switch it.kw {
 				case "invariant":
-					cur.LoopInv[k] = append(cur.LoopInv[k], mkClause(expr, it.where))
+					c := mkClause(expr, it.where)
+					if len(hdr) > 2 && strings.HasPrefix(hdr[2], "#") {
+						c.Group = hdr[2][1:]
+					}
+					cur.LoopInv[k] = append(cur.LoopInv[k], c)
 				case "loopmod":
 					for _, m := range splitTop(expr, ',') {
 						cur.LoopMod[k] = append(cur.LoopMod[k], mkClause(strings.TrimSpace(m), it.where))
@@ -552,4 +567,30 @@ func hasProp(props []string, id string) bool {
 		}
 	}
 	return false
+}
+
+// Views lists the proof views of a contract ("" alone when no clause is tagged)
+func (c *Contract) Views() []string {
+	set := map[string]bool{}
+	for _, e := range c.Ensures {
+		if e.Group != "" {
+			set[e.Group] = true
+		}
+	}
+	for _, invs := range c.LoopInv {
+		for _, e := range invs {
+			if e.Group != "" {
+				set[e.Group] = true
+			}
+		}
+	}
+	if len(set) == 0 {
+		return []string{""}
+	}
+	var out []string
+	for g := range set {
+		out = append(out, g)
+	}
+	sort.Strings(out)
+	return out
 }
